@@ -427,7 +427,7 @@ Proof.
 Qed.
 
 (* C09, trace-shift clause, on the model: the extracted predicate holds of the two model traces *)
-Theorem c09_model_trace_shift_ok (s : vsock) ops : c09_guard_trace cci s ops = true ->
+Theorem model_trace_shift_ok (s : vsock) ops : c09_guard_trace cci s ops = true ->
   c09_shift_ok da db dc (ftrace cci s ops) (ftrace cci (sh s) (map (shift_op da db) ops)) = true.
 Proof. intros G. rewrite (ftrace_shift ops s G). apply c09_shift_ok_refl. Qed.
 
